@@ -220,7 +220,8 @@ def write_ruleset(rs, base_dir):
     write_omen(os.path.join(base_dir, "Omen"), om, enc)
     write_lines(os.path.join(base_dir, "Omen", "pcfg_omen_prob.txt"), rs.get("omen_prob", []), enc)
     with open(os.path.join(base_dir, "Omen", "omen_keyspace.txt"), "w") as f:
-        for lvl, ks in (rs.get("omen_keyspace") or {}).items():
+        # the status report looks the level of the current Markov pre-terminal up here
+        for lvl, ks in (rs.get("omen_keyspace") or {str(l): 1 for l, _ in rs.get("omen_prob", [])}).items():
             f.write("%s\t%d\n" % (lvl, ks))
     cfg = ["[TRAINING_PROGRAM_DETAILS]", "contact = x", "author = x", "program = PCFG Trainer", "version = 4.7", "",
            "[TRAINING_DATASET_DETAILS]", "comments = ", "filename = gen.txt", "encoding = " + enc,
